@@ -159,3 +159,24 @@ package tcell
 //@   ensures [complete-narrow] an0 ==> forall k int :: 0 <= k && k < len(t.cells.cells) ==> !isDirty(t.cells.cells[k])
 //@   ensures [once] calls(draw) == 1
 //@   modifies t.cells.cells[*], t.clear, t.Mutex
+
+// Which handler the page gets: a mouse / paste / focus callback is wired to the Go handler exactly when the
+// application asked for that class of events, and to the no-op otherwise (DisableMouse, DisablePaste, DisableFocus
+// and Suspend go through the same functions with the flags cleared).  FuncOf and the Set that installs its result
+// are adjacent in the ghost call log.
+//@ func (*wScreen).enableMouse
+//@   arith bv
+//@   ensures [two] calls(Set) == 2 && calls(FuncOf) == 2
+//@   calls [wired] pair(FuncOf, fn, Set, recv, name, val) ==>
+//@        (name == "onMouseClick" || name == "onMouseMove") &&
+//@        (name == "onMouseClick" ==> isMethodValue(fn, "onMouseEvent") == (f&MouseButtonEvents != 0)) &&
+//@        (name == "onMouseMove" ==> isMethodValue(fn, "onMouseEvent") == (f&(MouseDragEvents|MouseMotionEvents) != 0)) &&
+//@        (isMethodValue(fn, "onMouseEvent") || isMethodValue(fn, "unset"))
+//@   modifies nothing
+
+//@ func (*wScreen).enablePasting
+//@   arith bv
+//@   ensures [one] calls(Set) == 1 && calls(FuncOf) == 1
+//@   calls [wired] pair(FuncOf, fn, Set, recv, name, val) ==>
+//@        name == "onPaste" && isMethodValue(fn, "onPaste") == on && (isMethodValue(fn, "onPaste") || isMethodValue(fn, "unset"))
+//@   modifies nothing
